@@ -87,7 +87,7 @@ def _get_active_realizations(
     objective_weights: NDArray[np.float64] | None = None,
     constraint_weights: NDArray[np.float64] | None = None,
 ) -> tuple[NDArray[np.bool_] | None, NDArray[np.bool_] | None]:
-    if objective_weights is None:
+    if objective_weights is None and constraint_weights is None:
         active_realizations = np.abs(config.realizations.weights) > 0
         # Realization filters rank the values of all realizations, and may give
         # weight to realizations with a zero configured weight, hence none of
@@ -110,10 +110,23 @@ def _get_active_realizations(
             )
         )
         return active_objectives, active_constraints
-    active_objectives = np.abs(objective_weights) > 0
-    active_constraints = (
-        None if constraint_weights is None else np.abs(constraint_weights) > 0
+    # Filtered weights may be present for the objectives or the constraints
+    # only, the other functions use the configured weights:
+    configured = np.abs(config.realizations.weights) > 0
+    active_objectives = (
+        np.broadcast_to(configured, (config.objectives.weights.size, configured.size))
+        if objective_weights is None
+        else np.abs(objective_weights) > 0
     )
+    if constraint_weights is not None:
+        active_constraints = np.abs(constraint_weights) > 0
+    elif config.nonlinear_constraints is not None:
+        active_constraints = np.broadcast_to(
+            configured,
+            (config.nonlinear_constraints.lower_bounds.size, configured.size),
+        )
+    else:
+        active_constraints = None
     return active_objectives, active_constraints
 
 
